@@ -9,6 +9,7 @@ EXTENDS Expander, Json, IOUtils
 CONSTANTS Universe, Known
 
 NoDev == {}
+KnownExp == {"ArgTrailingNewlineDropped"}
 DevInvokeLeak == {"InvokeDisabledLeavesStackEntry"}
 DevPattern == {"RepeatedPatternLoopDetection"}
 DevTopDefault == {"TopLevelDefaultNotExpanded"}
@@ -77,6 +78,9 @@ InvPages == { <<Inv(fn, <<Pos(v)>>)>> : fn \in {"echo", "err", "pre", "tpl", "py
                    <<Call("A", <<>>)>> }
 SiblingPages == { <<Call(a, <<Pos(<<Txt(<<"1">>)>>)>>), Txt(<<"SP">>), Call(b, <<Pos(<<Txt(<<"2">>)>>)>>)>> : a \in {"T1", "T2", "Sp"}, b \in {"T1", "T2", "Sp"} }
                 \cup { <<Call("T1", <<Pos(<<Call(a, <<>>), Call(b, <<Pos(<<Txt(<<"x">>)>>)>>)>>)>>)>> : a \in {"T2", "Sp"}, b \in {"T1", "T2"} }
+\* argument names that str.isdigit() accepts but that are not decimal numerals
+OddNamePages == { <<Call("T1", <<Named(<<"SUP2">>, <<Txt(<<"x">>)>>), Pos(<<Txt(<<"y">>)>>)>>)>>, <<ParD(<<"SUP2">>, <<Txt(<<"d">>)>>)>>,
+                  <<Call("T1", <<Named(<<"ARD3">>, <<Txt(<<"x">>)>>)>>)>> }
 CycPages == { <<Call("A", <<>>)>>, <<Call("A", <<Pos(<<Txt(<<"a">>)>>)>>)>>,
               <<If(<<Txt(<<"1">>)>>, <<Call("A", <<>>)>>, <<>>)>>,
               <<Txt(<<"p">>), Call("A", <<>>), Call("T1", <<Pos(<<Call("A", <<Pos(<<Txt(<<"a">>)>>)>>)>>)>>), Txt(<<"q">>)>> }
@@ -127,7 +131,7 @@ Cases ==
                   nd \in {{"T2"}, {"Sp", "T1"}}, p \in SiblingPages, o \in OptsSelQ, e \in BOOLEAN }
     [] Universe = "C05Q" ->
          { [lib |-> l, need |-> {}, page |-> p, o |-> OptAll, enw |-> TRUE] : l \in CyclicLibs, p \in CycPages }
-         \cup { [lib |-> LibBase, need |-> {}, page |-> p, o |-> OptAll, enw |-> TRUE] : p \in DeepPagesQ }
+         \cup { [lib |-> LibBase, need |-> {}, page |-> p, o |-> OptAll, enw |-> TRUE] : p \in DeepPagesQ \cup OddNamePages }
     [] Universe = "BLOWUP" ->
          { [lib |-> LAlt, need |-> {}, page |-> <<Call("A", <<>>)>>, o |-> OptAll, enw |-> TRUE] }
     [] Universe = "FILE" ->
